@@ -135,7 +135,20 @@ Proof.
 Qed.
 
 (* =========================================================== the theorem *)
-Theorem completion_of_tiling_maps : completion_statement'.
+(* proved for baits that are untagged OR tagged "Painted" only (the tag changes
+   what the namer does, not the geometry); the untagged statement is the
+   corollary below, the Painted one is Proofs/CompletionPainted.v *)
+Lemma completion_core : forall g prefix n d input pretext,
+  0 < d -> d <= n ->
+  Forall input_ok input ->
+  NoDup (map fst input) ->
+  NoDup (map key_of (in_frags input)) ->
+  Forall (fun f => f_tags f = []) (in_frags input) ->
+  Forall (fun p => exists b t, snd p = RF b :: t) pretext ->
+  Forall (fun b => (f_tags b = [] \/ f_tags b = [s "Painted"]) /\ (f_strand b = 1 \/ f_strand b = -1)
+                   /\ In (f_name b) (map fst input)) (baits_of pretext) ->
+  Forall (scaffold_tiled n d (baits_of pretext)) input ->
+  exists rs, remap_to_input repaired g prefix (n, d) input pretext = Ok rs.
 Proof.
   intros g prefix n d input pretext Hd Hdn Hin Hnm Hkeys0 Hunt Hpre Hb Htile.
   set (all := baits_of pretext) in *.
@@ -215,6 +228,13 @@ Proof.
   destruct (add_missing_fold_ok repaired g (b_found (with_store b3 (b_store b3))) inp
               (b_namer (with_store b3 (b_store b3))) [] Hunt') as (nl & Hnl).
   rewrite Hnl. cbn [bind]. eexists. reflexivity.
+Qed.
+
+Theorem completion_of_tiling_maps : completion_statement'.
+Proof.
+  intros g prefix n d input pretext Hd Hdn Hin Hnm Hkeys0 Hunt Hpre Hb Htile.
+  apply completion_core; try assumption.
+  eapply Forall_impl; [|exact Hb]. intros b (T & H). split; [left; exact T | exact H].
 Qed.
 
 (* ================================================ the added hypothesis is needed *)
